@@ -214,9 +214,79 @@ def run(ctx, rep):
     gl = ctx.cfg(fl, raises="default")
     rep.analysed(fl, gl)
     doml = Q.dominators(gl)
-    imps = [n for n in gl.live if n.ast is not None and n.kind == "stmt" and (
-        A.find_calls(n.ast, "__import__") or A.find_calls(n.ast, "importlib.import_module"))]
+    from .. import callgraph as _cgm
+    cg_ = _cgm.get(ctx)
+    IMPORTERS = ("__import__", "importlib.import_module", "import_module")
+
+    def import_escapes(fq, depth=0):
+        """does a failing import inside package function fq escape it? (None: fq does not import)"""
+        f_ = ctx.repo.funcs.get(fq)
+        if f_ is None or depth > 3:
+            return None
+        direct = [c for c in A.calls(f_.node) if A.call_name(c) in IMPORTERS]
+        via = [c for c, callees in cg_.sites.get(fq, ()) if any(import_escapes(q2, depth + 1) for q2 in (callees or ()))]
+        if not direct and not via:
+            return None
+        marks = direct + via
+
+        def rs(node_ast, kind):
+            if node_ast is None or kind in ("with_exit", "except", "with_enter", "for"):
+                return set()
+            if isinstance(node_ast, ast.Raise):
+                return None
+            if any(c is m_ for m_ in marks for c in A.calls(node_ast)):
+                return {Exception}
+            return set()
+        g_ = ctx.cfg(f_, raises=rs)
+        for n_ in g_.live:
+            if n_.ast is not None and n_.kind == "stmt" and any(c is m_ for m_ in marks for c in A.calls(n_.ast)):
+                for t_, l_ in n_.succ:
+                    if l_ == "exc" and (t_ is g_.excexit or Q.find_path_ef([t_], lambda x: x is g_.excexit, lambda a, b, l: True,
+                                                                          skip_first=False) is not None):
+                        return True
+        return False
+    imp_calls = {}
+    for c, callees in cg_.sites.get(fl.qual, ()):
+        if A.call_name(c) in IMPORTERS:
+            imp_calls[id(c)] = (c, True)
+        else:
+            esc = [import_escapes(q2) for q2 in (callees or ())]
+            if any(e is not None for e in esc):
+                imp_calls[id(c)] = (c, any(esc))
+    for c in A.calls(fl.node):
+        if A.call_name(c) in IMPORTERS:
+            imp_calls.setdefault(id(c), (c, True))
+    imps = [n for n in gl.live if n.ast is not None and n.kind == "stmt" and any(id(c) in imp_calls for c in A.calls(n.ast))]
     rep.floor("R09.4", "import sites in vinegar.load", len(imps), 1)
+    # a failing import (any Exception: a module may run arbitrary code at import time) never escapes load: the record then
+    # falls back to the generic stand-in
+    raising = [c for c, esc in imp_calls.values() if esc]
+
+    def rs_load(node_ast, kind):
+        if node_ast is None or kind in ("with_exit", "except", "with_enter", "for"):
+            return set()
+        if isinstance(node_ast, ast.Raise):
+            return None
+        if any(c is m_ for m_ in raising for c in A.calls(node_ast)):
+            return {Exception}
+        return set()
+    gli = ctx.cfg(fl, raises=rs_load)
+    esc_w = None
+    for n_ in gli.live:
+        if n_.ast is not None and n_.kind == "stmt" and any(c is m_ for m_ in raising for c in A.calls(n_.ast)):
+            for t_, l_ in n_.succ:
+                if l_ != "exc":
+                    continue
+                pth = [t_] if t_ is gli.excexit else Q.find_path_ef([t_], lambda x: x is gli.excexit, lambda a, b, l: True,
+                                                                    skip_first=False)
+                if pth is not None:
+                    esc_w = [n_] + pth
+    rep.ob("R09.4", "vinegar.load: a failing import of the exception's module is swallowed (the generic stand-in is used)", esc_w is None,
+           "every import site is enclosed by a handler for Exception" if esc_w is None else
+           "an exception raised while importing the module named in the record (anything but ImportError, e.g. a module failing at "
+           "import time or an empty module name) escapes vinegar.load: the requester gets that unrelated local error - or the serving "
+           "loop dies - instead of the remote exception", ctx.loc(imps[0]) if imps else fl.loc,
+           witness=ctx.path(esc_w) if esc_w else None)
     for n in imps:
         c = cond_names(Q.dominating_conditions(gl, n, doml))
         ok = c.get("import_custom_exceptions") is True
@@ -365,3 +435,93 @@ def run(ctx, rep):
     K.share(ctx, rep, "c08", lambda o: o.rule == "R08.1" and (o.key.startswith("_dispatch_request: failure of") or
                                                               "configured local propagation" in o.key), "R09.8", floor=4)
     K.share(ctx, rep, "c16", lambda o: o.rule == "R16.3" and "rpyc.core.vinegar" in o.key, "R09.9", floor=1)
+    _dump_record_model(ctx, rep)
+
+
+def _dump_record_model(ctx, rep):
+    """R09.10: vinegar.dump evaluated (sa/miniinterp.py) on a model exception whose public attributes cover the value corners:
+    None / False / 0 / '' (falsy but transmitted), an unencodable object (repr), a listed name whose getattr fails (skipped),
+    private and ignored names (skipped)."""
+    from .. import miniinterp as MI
+    rep.rule("R09.10", "the record carries the arguments and every readable public attribute with its value (None and other falsy "
+                       "values included), unencodable ones as repr; only unreadable, private and ignored names are left out")
+    fd = ctx.func(V + ".dump")
+    rep.analysed(fd)
+    OBJ = MI.ModelObj("unencodable object")
+    ECLS = MI.ModelObj("class AppError", {"__module__": "app.errors", "__name__": "AppError"})
+    table = {"args": (1, "x", OBJ, None), "code": 5, "detail": None, "empty": "", "flag": False, "obj": OBJ, "zero": 0,
+             "_private": 1, "__dunder__": 2, "with_traceback": "bound method", "_remote_tb": "old text"}
+    listing = sorted(list(table) + ["ghost"])
+
+    class _Exc:
+        mi_native = True
+        args = table["args"]
+    val = _Exc()
+
+    def g_getattr(o, name, *dflt):
+        if o is val:
+            if name in table:
+                return table[name]
+            if dflt:
+                return dflt[0]
+            raise MI.Raised("AttributeError")
+        if isinstance(o, MI.ModelObj):
+            if name in o.attrs:
+                return o.attrs[name]
+            if dflt:
+                return dflt[0]
+            raise MI.Raised("AttributeError")
+        raise AnalysisError("getattr on an unexpected object")
+
+    def dumpable(x):
+        return x is None or (type(x) in (int, str, bool, float, bytes)) or (type(x) is tuple and all(dumpable(i) for i in x))
+
+    class _NS:
+        mi_native = True
+
+        def __init__(self, **kw):
+            self.__dict__.update(kw)
+    STOP = MI.ModelObj("class StopIteration")
+    glob = {"StopIteration": STOP, "str": str, "consts": _NS(EXC_STOP_ITERATION="EXC_STOP_ITERATION"),
+            "version": _NS(version_string="VERSION"), "brine": _NS(dumpable=dumpable),
+            "traceback": _NS(format_exception=lambda *a: ["TB-", "TEXT"])}
+    hooks = {"dir": lambda o: list(listing), "getattr": g_getattr, "repr": lambda o: "repr:%s" % getattr(o, "name", o),
+             "brine.dumpable": dumpable, "type": lambda o: "type-of-%s" % getattr(o, "name", o),
+             "hasattr": lambda o, n: n in table}
+    bad = []
+    rows = 0
+    try:
+        for tbflag in (True, False):
+            for verflag in (True, False):
+                rows += 1
+                extra = {"__calls__": hooks, "__globals__": glob, "__max_iter__": 200}
+                extra["__global_lookup__"] = K.module_function_lookup(ctx, fd.module, extra)
+                got = MI.call_function(fd.node, [ECLS, val, "TRACEBACK", tbflag, verflag], extra)
+                want_attrs = [(n, ("repr:unencodable object" if table[n] is OBJ else table[n]))
+                              for n in listing if n in table and n != "args" and not n.startswith("_") and n != "with_traceback"]
+                want_attrs.append(("_remote_version", "VERSION" if verflag else "<version denied>"))
+                want = (("app.errors", "AppError"), (1, "x", "repr:unencodable object", None), tuple(want_attrs),
+                        "TB-TEXT" if tbflag else "<traceback denied>")
+                if got != want:
+                    if isinstance(got, tuple) and len(got) == 4:
+                        ga = dict(got[2]) if all(isinstance(x, tuple) and len(x) == 2 for x in got[2]) else {}
+                        lost = [n for n, _ in want_attrs if n not in ga]
+                        extra_ = [n for n in ga if n not in dict(want_attrs)]
+                        diff = [n for n, v in want_attrs if n in ga and ga[n] != v]
+                        bad.append("traceback=%s version=%s: %s" % (tbflag, verflag, "; ".join(x for x in (
+                            "attribute(s) %s are not transmitted" % lost if lost else "",
+                            "name(s) %s are transmitted although private/ignored/unreadable" % extra_ if extra_ else "",
+                            "attribute(s) %s carry another value" % diff if diff else "",
+                            "args are %r" % (got[1],) if got[1] != want[1] else "",
+                            "class id is %r" % (got[0],) if got[0] != want[0] else "",
+                            "traceback text is %r" % (got[3],) if got[3] != want[3] else "") if x) or "order of attributes differs"))
+                    else:
+                        bad.append("traceback=%s version=%s: the record is %r" % (tbflag, verflag, got))
+    except MI.Raised as r_:
+        bad.append("vinegar.dump raises %s on the model exception" % r_.name)
+    except AnalysisError as e_:
+        rep.undecided("R09.10", "vinegar.dump model", str(e_))
+        return
+    rep.ob("R09.10", "vinegar.dump: record of the model exception (args, public attributes incl. None/False/0/'', repr of unencodable "
+           "values; unreadable/private/ignored names skipped)", not bad,
+           "%d switch combinations give the expected record" % rows if not bad else "; ".join(bad[:2]), fd.loc, kind="table")
